@@ -35,22 +35,11 @@ ExplainsSome(ev, r, args) ==
   \/ Explains(ev, r)
   \/ HasOpenArg(args) /\ \E dl \in Dialects : Explains(ev, FormatD(ev.fmt, args, ev.chars, Cf6, dl))
 
-\* the (single) directive of the format, for the failure signature
-DirOf(fmt) == LET sc == Scan(fmt)
-                  ds == IF sc.err THEN <<>> ELSE SelectSeq(sc.items, LAMBDA it : it.k = "dir")
-              IN IF Len(ds) = 1 THEN ds[1].d ELSE EmptyDir
-PNumJ(n) == [t |-> n.t, neg |-> n.neg, d |-> n.d, x |-> n.x]
+\* what the specification says about a rejected call (with the description the failure signature needs)
 Info(ev, r) ==
-  LET d == DirOf(ev.fmt)
-      args == ArgsOf(ev)
-      v == IF args = <<>> THEN VNull ELSE args[Len(args)]
+  LET args == ArgsOf(ev)
       alts == FormatAlts(ev.fmt, args, ev.chars, Cf6)
-  IN [fam |-> "d", fmt |-> ev.fmt, args |-> ev.args, chars |-> ev.chars, verb |-> d.verb,
-      flags |-> FlagText(d.flags), wk |-> d.wk, pk |-> d.pk, ub |-> UbFlags(d),
-      cn |-> PNumJ(IF d.verb \in IntVerbs \cup UnsVerbs \/ d.verb = c_c THEN IntArg(v) ELSE ToNum(v, GoawkDialect)),
-      cs |-> (IF d.verb = c_s /\ ~IsUnmStr(ToStr(v, Cf6)) THEN ToStr(v, Cf6) ELSE <<>>),
-      isnum |-> ArgIsNumber(v, GoawkDialect), alts |-> {q \in alts : ~IsUnmStr(q.out)},
-      err |-> r.err, out |-> r.out]
+  IN CallJ("k", ev.fmt, DirOf(ev.fmt), args, ev.chars, r, {q \in alts : ~IsUnmStr(q.out)})
 
 TStep ==
   /\ l <= NLog /\ Log[l].ev = "step"
@@ -64,7 +53,7 @@ TStep ==
 \* a print statement: the line is PrintLine of the arguments under the OFMT in force -- CONVFMT is recorded
 \* but not used
 PInfo(ev, line) ==
-  [fam |-> "p", args |-> ev.args, of |-> ev.of, cf |-> ev.cf, mode |-> ev.mode, ofs |-> ev.ofs,
+  [fam |-> "p", args |-> ArgsJ(ArgsOf(ev)), of |-> ev.of, cf |-> ev.cf, mode |-> ev.mode, ofs |-> ev.ofs,
    fraction |-> HasFraction(ArgsOf(ev)), defprec |-> (ev.of \in {<<PCT, c_g>>, <<PCT, C_G>>}), out |-> line]
 TPrint ==
   /\ l <= NLog /\ Log[l].ev = "print"
